@@ -1190,6 +1190,12 @@ impl Prop for C19 {
     fn from_bytes(data: &[u8]) -> Option<Case> {
         from_bytes(data)
     }
+    fn fuzz(t: Tier) -> Option<FuzzSpec> {
+        match t {
+            Tier::Quick => None,
+            Tier::Thorough => Some(FuzzSpec { target: "c19_reflection", runs: 300000, max_len: 2048 }),
+        }
+    }
 }
 
 pub fn from_bytes(data: &[u8]) -> Option<Case> {
